@@ -498,7 +498,7 @@ def g1_stage(ctx):
                 if nviol <= 2:
                     ctx.violation("G1 tie broken: the real index set produced an outcome the model's registry steps cannot produce: cap=%s prog=%s results=%s" % (key[0], key[1], norm),
                                   {"schedule": sched, "model_outcomes": sorted(model[key]), "how_to_rerun": how}, no_input=True)
-            if sum(1 for r in res if "L" in r) >= 2:
+            if sum(1 for r in res if "L" in r) >= 2 and not (locked and holders) and (key not in model or norm in model[key]):
                 both_locked += cnt
     missing = {("%s %s" % k): sorted(model[k] - set(impl[k])) for k in model if k in impl and model[k] - set(impl[k])}
     ctx.cov["g1_registry"] = {"executions": len(lines), "preemption_bound": bound, "programs": ["cap=%s %s" % k for k in sorted(impl)],
@@ -506,9 +506,15 @@ def g1_stage(ctx):
                               "model_outcomes_not_observed": missing,
                               "schedules_where_two_releases_returned_Locked": both_locked, "wall_s": round(time.time() - t0, 1)}
     if both_locked:
-        ctx.notes.append("G1: in %d explored schedules of the real index set TWO release(LockIfLastIndex) calls returned Locked (lock(): "
-                         "`if self.is_locked() { return Locked }`): both droppers get NoMoreOwners and both remove the service's resources; the model "
-                         "reproduces it (ghost flag gmulti, c06_single_last_refuted, c06_live_is_linked_refuted); not reported as a violation pending adjudication" % both_locked)
+        k2 = next(((key, norm) for key, outs in sorted(impl.items()) for norm in sorted(outs)
+                   if sum(1 for t in norm.split("|") if "L" in t.split(",")) >= 2), None)
+        sched = first[k2] if k2 else ""
+        ctx.violation("release(LockIfLastIndex) returned Locked to TWO releasers of one index set in %d explored schedules (lock(): `if self.is_locked() "
+                      "{ return Locked }`): both droppers of a service get NoMoreOwners" % both_locked,
+                      {"program": k2[0][1] if k2 else "", "capacity": k2[0][0] if k2 else "", "results": k2[1] if k2 else "", "schedule": sched,
+                       "how_to_rerun": "%s one %s '%s' %s" % (exe, k2[0][0], k2[0][1], sched) if k2 else "",
+                       "theorem": "c06_single_last_refuted, c06_live_is_linked_refuted"},
+                      key="registry:two-last-releasers-both-locked")
 
 
 def witness_stage(ctx, exe, g3exe):
